@@ -153,7 +153,8 @@ func H_C09_Embedded() {
 			cAssert(!prohibitedDest(s, c), "ReadDestinationFromLeaseSet/no-prohibited-type")
 		}
 	case 3:
-		in, _ := ls2Shape{sig, cry, 0, -1, 0, []int{32}, 1, 0}.build()
+		off := []int{-1, 7}[nd.IntRange(0, 1)] // with and without an offline block
+		in, _ := ls2Shape{sig, cry, 0, off, 0, []int{32}, 1, 0}.build()
 		ls, _, err := lease_set2.ReadLeaseSet2(in)
 		if err == nil {
 			d := ls.Destination()
@@ -163,7 +164,8 @@ func H_C09_Embedded() {
 			}
 		}
 	case 4:
-		in, _ := metaShape{sig, cry, 0, -1, 0, []int{0}, 0}.build()
+		off := []int{-1, 7}[nd.IntRange(0, 1)]
+		in, _ := metaShape{sig, cry, 0, off, 0, []int{0}, 0}.build()
 		m, _, err := meta_leaseset.ReadMetaLeaseSet(in)
 		if err == nil {
 			d := m.Destination()
